@@ -166,7 +166,11 @@ class Ctor(Stream):
         return cs
 
     def go_case(self, c):
-        return c["args"]
+        # keys starting with "_" are ignored by the harness; they make the replay file self-contained
+        return dict(c["args"], _mand=c["mand"], _opt=c["opt"])
+
+    def from_replay(self, c):
+        return {"args": {k: v for k, v in c.items() if not k.startswith("_")}, "mand": c.get("_mand", []), "opt": c.get("_opt", [])}
 
     def classify(self, c, o):
         return c["args"]["name"]
@@ -306,10 +310,14 @@ class RefEnc(Stream):
         return "(%d, %d, %s, %s)" % (p["epd"], p["ty"], self.coq_vals(mand), self.coq_vals(p["opt"]))
 
     def go_case(self, c):
-        return {"hex": c["hex"]}
+        return {"hex": c["hex"], "_epd": c["epd"], "_ty": c["ty"], "_ieis": c["ieis"], "_cls": c["cls"],
+                "_mand": [[v[0], v[1], bytes(v[2]).hex()] for v in c["mand"]],
+                "_opt": [None if v is None else [v[0], v[1], bytes(v[2]).hex()] for v in c["opt"]]}
 
     def from_replay(self, c):
-        raise RuntimeError("replay of refenc cases is done by re-running the check (the reference values are not in the replay file)")
+        un = lambda v: None if v is None else (v[0], v[1], bytes.fromhex(v[2]))
+        return {"hex": c["hex"], "epd": c["_epd"], "ty": c["_ty"], "ieis": c.get("_ieis", []), "cls": c.get("_cls", "replay"),
+                "mand": [un(v) for v in c["_mand"]], "opt": [un(v) for v in c["_opt"]]}
 
     def classify(self, c, o):
         return c["cls"]
@@ -352,7 +360,18 @@ class C09(Check):
         changed = []
         if gen.run_translator(harness, "gen-nas", "NasDesc.v", ("coq",)):
             changed.append("NasDesc.v")
+        self._fresh = True
         return changed
+
+    def eval_cases(self, st, cases, obs):
+        # `./check Cxx --replay f` evaluates cases without going through run(): make sure the model is the one of the current tree
+        if not getattr(self, "_fresh", False):
+            h, err = C.build_harness()
+            if h is None:
+                raise RuntimeError(err)
+            self.regen(h)
+            C.coq_make([t for t in self.extra_targets])
+        return super().eval_cases(st, cases, obs)
 
     def extra(self, harness, build_ok):
         """Diag: list the layout differences computed on the regenerated descriptors; known ones are reported as findings,
